@@ -185,14 +185,123 @@ pub fn run(s: &mut Src, ctx: &mut Ctx) -> Verdict {
     Verdict::Pass
 }
 
+/// Part `periodic`: the Periodic watermark strategy reads the wall clock, so its watermark VALUES are not
+/// modelled. What the statement says about every strategy is judged relative to what is observed: the
+/// watermark never moves backwards; an event is treated as late exactly when its timestamp is below the
+/// watermark observed just before it is offered; every offered event ends up exactly once as accepted,
+/// dropped or side-output according to the strategy; the statistics add up. A few generated steps sleep
+/// longer than the interval so that the watermark really lags and then jumps (the oracle does not depend
+/// on how long the sleep actually took).
+pub fn run_periodic(s: &mut Src, ctx: &mut Ctx) -> Verdict {
+    let interval_ms = 1 + s.below(2) as u64;
+    let late = match s.below(4) {
+        0 => Late::Drop,
+        1 => Late::Allowed(s.below(11) as u64),
+        2 => Late::Side,
+        _ => Late::Recompute,
+    };
+    let n = 3 + s.below(8);
+    let steps: Vec<(u64, bool)> = (0..n).map(|_| (s.below(31) as u64, s.chance(1, 4))).collect();
+    if probe_only() {
+        return Verdict::Pass;
+    }
+    ctx.describe(|| format!("Periodic({} ms) late={:?} steps (timestamp, sleep-past-interval-before) {:?}", interval_ms, late, steps));
+    let ls = match late {
+        Late::Drop => LateDataStrategy::Drop,
+        Late::Allowed(l) => LateDataStrategy::AllowedLateness { max_lateness: Duration::from_millis(l) },
+        Late::Side => LateDataStrategy::SideOutput,
+        Late::Recompute => LateDataStrategy::RecomputeWindows,
+    };
+    let mut st = WatermarkedStream::new(WatermarkStrategy::Periodic { interval: Duration::from_millis(interval_ms) }, ls);
+    let (mut m_late, mut m_drop, mut m_allowed) = (0usize, 0usize, 0usize);
+    let mut m_events: Vec<String> = vec![];
+    let mut m_side: Vec<String> = vec![];
+    let mut max_seen = 0u64;
+    let mut lagged_then_not_late = false;
+    let mut saw_late = false;
+    let mut advanced = false;
+    for (i, &(t, sleep)) in steps.iter().enumerate() {
+        if sleep {
+            std::thread::sleep(Duration::from_millis(interval_ms + 1));
+        }
+        let w = st.current_watermark().timestamp;
+        if st.add_event(ev(i, t)).is_err() {
+            return Verdict::fail("add-event-err", format!("add_event returned Err at step {}", i));
+        }
+        let w2 = st.current_watermark().timestamp;
+        if w2 < w {
+            return Verdict::fail("wm-backwards", format!("step {}: watermark moved from {} to {}", i, w, w2));
+        }
+        if w2 > w {
+            advanced = true;
+        }
+        if t < w {
+            m_late += 1;
+            saw_late = true;
+            match late {
+                Late::Drop => m_drop += 1,
+                Late::Allowed(l) => {
+                    if w - t <= l {
+                        m_allowed += 1;
+                        m_events.push(format!("e{}", i));
+                    } else {
+                        m_drop += 1;
+                    }
+                }
+                Late::Side => m_side.push(format!("e{}", i)),
+                Late::Recompute => {
+                    m_allowed += 1;
+                    m_events.push(format!("e{}", i));
+                }
+            }
+        } else {
+            m_events.push(format!("e{}", i));
+            if t < max_seen && w < max_seen {
+                // out of order, the watermark lagged behind the largest timestamp: on time by the statement
+                lagged_then_not_late = true;
+            }
+        }
+        max_seen = max_seen.max(t);
+        let evs: Vec<String> = st.events().iter().map(|e| e.id.clone()).collect();
+        let side: Vec<String> = st.side_output().iter().map(|e| e.id.clone()).collect();
+        let ls = st.late_stats();
+        if evs != m_events || side != m_side || (ls.total_late, ls.dropped, ls.allowed, ls.side_output) != (m_late, m_drop, m_allowed, m_side.len()) {
+            return Verdict::fail(
+                "periodic:late-iff-below-observed-watermark",
+                format!(
+                    "step {} (t={}, watermark observed before the call {}): events {:?} side {:?} stats {:?}; by the statement (late iff t < {}): events {:?} side {:?} late={} dropped={} allowed={}",
+                    i, t, w, evs, side, ls, w, m_events, m_side, m_late, m_drop, m_allowed
+                ),
+            );
+        }
+        if st.events().len() + ls.dropped + st.side_output().len() != i + 1 {
+            return Verdict::fail("conservation", format!("step {}: accepted+dropped+side != offered", i));
+        }
+        if w2 > max_seen {
+            return Verdict::fail("periodic:watermark-above-max-timestamp", format!("step {}: watermark {} exceeds the largest timestamp seen {}", i, w2, max_seen));
+        }
+    }
+    if lagged_then_not_late {
+        ctx.label("out-of-order-event-at-lagging-watermark");
+    }
+    if saw_late {
+        ctx.label("has-late");
+    }
+    if advanced && (lagged_then_not_late || saw_late) {
+        ctx.nontrivial(hash_of(&(interval_ms, format!("{:?}", late), &steps)));
+    }
+    Verdict::Pass
+}
+
 pub fn property() -> Property {
     Property {
         id: "C13",
         level: "exploration",
         rule: "generated: timestamp sequences of length 0..12 over base+0..30 in any order x {BoundedOutOfOrder(0..10 ms), MonotonicAscending} x {Drop, AllowedLateness(0..10), SideOutput, RecomputeWindows}; plus exhaustive enumeration of all sequences of length 4..6 (quick) / 4..8 (thorough) over a 6-value domain x 20 configurations (every prefix is judged, so shorter sequences are covered). Oracle: watermark/late model from the statement, compared after every add_event (watermark value, monotonicity, events, side output, stats, conservation, history). Non-trivial: at least one late event and a watermark advance after it; distinct by (configuration, sequence).",
-        assumptions: vec!["Periodic and Custom watermark strategies read the wall clock / do nothing and are outside the statement".into()],
+        assumptions: vec!["The Periodic strategy reads the wall clock: its watermark values are not modelled; part `periodic` judges only what is stated relative to the watermark observed before each call (monotone, late iff below it, routing, statistics), with real sleeps past the interval in the generator but no clock in the oracle. Custom does nothing.".into()],
         parts: vec![
             Part { name: "random", run, quick: Budget::Random { cases: 400_000, bytes: 40 }, thorough: Budget::Random { cases: 8_000_000, bytes: 40 }, min_nontrivial_pct: 15 },
+            Part { name: "periodic", run: run_periodic, quick: Budget::Random { cases: 3_000, bytes: 40 }, thorough: Budget::Random { cases: 60_000, bytes: 40 }, min_nontrivial_pct: 20 },
             Part { name: "exh4", run, quick: Budget::Exhaustive { param: 4 }, thorough: Budget::Exhaustive { param: 4 }, min_nontrivial_pct: 0 },
             Part { name: "exh5", run, quick: Budget::Exhaustive { param: 5 }, thorough: Budget::Exhaustive { param: 5 }, min_nontrivial_pct: 0 },
             Part { name: "exh6", run, quick: Budget::Exhaustive { param: 6 }, thorough: Budget::Exhaustive { param: 6 }, min_nontrivial_pct: 0 },
